@@ -2,6 +2,8 @@
   TwProofs.C08 — lexing and parsing terminate on every input and end in a program or an error.
 -/
 import TwProofs.Lemmas.LexSpan
+import TwProofs.Lemmas.LexNoPanic
+import TwProofs.Lemmas.ParseFuel
 
 namespace Tw.C08
 open Tw Tw.Lx
@@ -34,9 +36,40 @@ theorem token_list_ends_with_eof (inp : Bytes) (r : LexResult) (h : tokenize inp
     obtain ⟨ts', e, h1, h2⟩ := ih
     exact ⟨t :: ts', e, by rw [h1]; rfl, h2⟩
 
-/-- every error line is ≥ 1 (`Token.ErrorLine` adds one to a zero-based line).  Not yet proved:
-    `parse_fuel_adequate` (the parser's loops never exhaust `parseFuel`); the parser's termination is
-    covered by the correspondence run under a deadline only. -/
+/-- **the parser terminates**: the model parser is a recursion on fuel, and with the fuel its driver
+    gives it (four units per token and a constant) no call ever reaches fuel zero — for every byte
+    string, `parseSource` never answers "out of fuel".  The measure: the token list never grows,
+    always ends in EOF, every loop iteration and every descent that closes a cycle of the call
+    graph (loop → expression, block → block, `@elseif` → `@elseif`, slot → slot, …) comes after a
+    token was consumed, and the chains that descend without consuming (expression → loop,
+    body → block → statement, object loop → expression for `{a}`) are of bounded length
+    (`expr_adq`, `stmt_adq`, `parseProgramLoop_adq`). -/
+theorem parser_never_out_of_fuel (src : Bytes) (base : Nat) : parseSource src base ≠ .oof :=
+  parseSource_ne_oof src base (fun r h => token_list_ends_with_eof src r h) (Tw.tokenize_total src)
+
+/-- … and never with the lexer's panic outcome either: lexing and parsing always end in a program
+    or in an error that carries a line -/
+theorem parse_always_answers (src : Bytes) (base : Nat) :
+    (∃ prog, parseSource src base = .ok prog) ∨ (∃ e, parseSource src base = .err e) := by
+  have h1 := parser_never_out_of_fuel src base
+  have h2 : parseSource src base ≠ .lexPanic := by
+    intro hlp
+    unfold parseSource at hlp
+    split at hlp
+    · cases hlp
+    · rename_i lr htok
+      split at hlp
+      · rename_i hp
+        rw [tokenize_no_panic src lr htok] at hp
+        cases hp
+      · exact finishParse_ne_lexPanic' _ _ _ _ hlp
+  cases h : parseSource src base with
+  | ok prog => exact Or.inl ⟨prog, rfl⟩
+  | err e => exact Or.inr ⟨e, rfl⟩
+  | oof => exact absurd h h1
+  | lexPanic => exact absurd h h2
+
+/-- every error line is ≥ 1 (`Token.ErrorLine` adds one to a zero-based line) -/
 theorem errorLine_pos (t : Token) : 1 ≤ t.errorLine := by simp [Token.errorLine]
 
 /-! non-vacuity: inputs that used to hang or crash the pinned revision are rejected by the model -/
